@@ -11,6 +11,7 @@ C10 line-protocol driver.  ops:
   cls <hex>                         classification flags
   big <hex>                         toBigNumber | toBigUNumber
   chr <hex>                         characterLiteralToLL
+  cch <hex>                         Token::isCChar / isCMultiChar of a character-literal token
   sfx <hex>                         getSuffix
   trunc <int> <size> <signed>       truncateIntValue
   minmax <bits> <unsigned>          getMinMaxValues
@@ -101,6 +102,10 @@ def step (line : String) : String :=
       match characterLiteralToLL s with
       | .ok v => "ok:" ++ toString v
       | .error e => "err:" ++ cerrStr e
+    | none => "bad-hex"
+  | ["cch", h] =>
+    match fromHex h with
+    | some s => if isCharLiteral s then s!"cchar={b (isCChar s)} multi={b (isCMultiChar s)}" else "notchar"
     | none => "bad-hex"
   | ["sfx", h] =>
     match fromHex h with
